@@ -107,6 +107,14 @@ class Ex:
                 a, ka = self.tr(e.args[0])
                 if ka == M:
                     return f"flat ({a})", V
+            if f == "np.transpose" and len(e.args) == 1 and not e.keywords:
+                a, ka = self.tr(e.args[0])
+                if ka == M:
+                    return f"Mat.transpose ({a})", M
+            if f == "np.trace" and len(e.args) == 1 and not e.keywords:
+                a, ka = self.tr(e.args[0])
+                if ka == M:
+                    return f"Mat.trace ({a})", S
             if f == "np.abs" and len(e.args) == 1 and not e.keywords:
                 a, ka = self.tr(e.args[0])
                 if ka == R:
@@ -412,6 +420,23 @@ def generate(repo):
     for nm, key in (("basisRow", "basis_tmp"), ("basisConjRow", "basisconjugate_tmp")):
         t, k = Ex(w, {"b_alpha": ("b_alpha", M)}).tr(apps[key])
         emit(f"{w}:{apps[key].lineno} `{key}.append({ast.unparse(apps[key])})`", f"{nm} {{K : Type}} [HasConj K] {{d : Nat}} (b_alpha : Mat K d d) : Vec K (d * d)", t)
+
+    # ---- matrix_basis.py: expansion helpers
+    w = "matrix_basis.py:calc_matrix_expansion_coefficient"
+    f = find_fn(mbm, "calc_matrix_expansion_coefficient")
+    if loop_vars(f, "basis", w) != ["bi"]:
+        raise Untranslatable(f"{w}: loop is not `for bi in basis`")
+    st = assign_to(f, "c", w)
+    t, k = Ex(w, {"bi": ("bi", M), "from_mat": ("from_mat", M)}).tr(st.value)
+    emit(f"{w} `for bi in basis: {ast.unparse(st)}`", f"expansionCoeff {HDR} {{d : Nat}} (bi from_mat : Mat K d d) : K", t)
+    w = "matrix_basis.py:calc_mat_from_coefficient_basis"
+    f = find_fn(mbm, "calc_mat_from_coefficient_basis")
+    if loop_vars(f, "enumerate(basis)", w) != ["i", "bi"] or ast.unparse(assign_to(f, "ci", w).value) != "coeff[i]":
+        raise Untranslatable(f"{w}: loop is not `for i, bi in enumerate(basis): ci = coeff[i]`")
+    st = assign_to(f, "mat", w, aug=True)
+    t, k = Ex(w, {"ci": ("ci", S), "bi": ("bi", M)}).tr(st.value)
+    emit(f"{w} `for i, bi in enumerate(basis): ci = coeff[i]; {ast.unparse(st)}`",
+         f"matFromCoeffTerm {HDR} {{d : Nat}} (acc : Mat K d d) (ci : K) (bi : Mat K d d) : Mat K d d", f"Mat.add acc ({t})")
 
     # ---- matrix_basis.py: loop nests of get_comp_basis
     w = "matrix_basis.py:get_comp_basis"
